@@ -771,6 +771,51 @@ def authority_end(R, P):
             "the authority does not end at the first delimiter: %s - a URI with an empty path whose query contains '/' (\"http://host?a=/b\") is split inside the query" % det)
 
 
+def scheme_colon(R, P):
+    """DELIM/scheme: text without a scheme (user:password@host, host:port, [v6]:port) goes on to the authority state; the
+    scheme state refuses a text (state = ERROR) only when the first colon is followed by '/' but not by "//" - NUM, every
+    state at the ERROR store: the byte behind the colon that memchr found is '/'."""
+    f = P.fn("s_parse_scheme")
+    errv = P.enums.get("ERROR")
+    if not R.require(f is not None and errv is not None, "s_parse_scheme / ERROR not found"):
+        return
+    mcs = [e for e in f.calls("memchr") if f.is_const(RU.uncast(f, RU.arg(f, e.node, 1))) == 58]
+    holder = None
+    for e in f.all_events():
+        if e.kind == "decl":
+            for v in e.node["vars"]:
+                i_ = RU.uncast(f, v["init"]) if v.get("init") is not None else None
+                if mcs and i_ is mcs[0].node:
+                    holder = v["n"]
+    stores = []
+    for b in f.blocks.values():
+        for el in b.elems:
+            if el["k"] == "bin" and el["op"] == "=":
+                l = f.d(el["a"][0])
+                if l is not None and l["k"] == "member" and l["f"] == "state" and f.is_const(el["a"][1]) == errv:
+                    stores.append(el)
+    if not R.require(len(mcs) == 1 and holder is not None and stores, "s_parse_scheme: colon search / ERROR store not found"):
+        return
+    num = Num(f, P, C04.ParserHooks(), max_paths=20000)
+    try:
+        sts = num.states_at({s_["id"] for s_ in stores})
+    except Limit as ex:
+        R.broken(str(ex))
+        return
+    ok, n = True, 0
+    for s_ in stores:
+        for st in sts.get(s_["id"], []):
+            n += 1
+            colon = st.env.get("v:" + holder)
+            hit = False
+            for (a2, sz, v2) in st.notes.get("cells", []):
+                if sz == 1 and colon is not None and entails(st, a2 - colon - 1) and entails(st, colon + 1 - a2) and entails(st, v2 - 47) and entails(st, Poly.const(47) - v2):
+                    hit = True
+            ok = ok and hit
+    R.check(ok and n >= 1, "DELIM", "scheme:refused-only-after-colon-slash", "%s()" % f.name, "the scheme state sets ERROR only with '/' behind the first colon (%d states)" % n,
+            "s_parse_scheme can refuse a text whose first colon is not followed by '/': URIs without a scheme (\"user:secret@host\", \"[::1]:8080/a\") fail to parse instead of going on to the authority")
+
+
 def port_range(R, P):
     """PORT: the authority parser accepts exactly the port numbers that fit the 32-bit field: once the digits parsed, ERROR is
     set only if the value exceeds UINT32_MAX, and the narrowing store sees a value <= UINT32_MAX (NUM, all values)."""
@@ -842,6 +887,7 @@ def analyse(ctx, replace=None, only=None):
     views(R, P)
     host_cursor(R, P)
     authority_end(R, P)
+    scheme_colon(R, P)
     builder(R, P)
     alphabet(R, P)
     query(R, P)
